@@ -280,9 +280,9 @@ static void play_history(xmp_context c, int budget_frames)
 	xmp_set_player(c, XMP_PLAYER_AMP, vrng_below(4));
 	xmp_set_player(c, XMP_PLAYER_MIX, vrng_range(-100, 100));
 	if (vrng_chance(30))
-		xmp_set_player(c, XMP_PLAYER_FLAGS, vrng_below(8));
+		xmp_set_player(c, XMP_PLAYER_FLAGS, vrng_below(16));
 	if (vrng_chance(20))
-		xmp_set_player(c, XMP_PLAYER_CFLAGS, vrng_below(8));
+		xmp_set_player(c, XMP_PLAYER_CFLAGS, vrng_below(16));
 	if (vrng_chance(20))
 		xmp_set_player(c, XMP_PLAYER_VOLUME, vrng_range(0, 200));
 
